@@ -388,3 +388,22 @@ def inject_nonascii(text, rng, n=4):
     if rng.random() < 0.3:
         out = out.replace("\n", "\r\n")
     return out
+
+
+EOF_TAILS = [' "café', ' /* 漢字', ' [{ é', ' "\U0001F600', ' // é', ' "é\\', 'é', ' !é', ' $é',
+             ' 0xé', ' "a ', ' " ', " 'é", ' "x\\é', ' /* a /* é */', ' #é', ' "s" # "é']
+
+
+def eof_nonascii(text, rng):
+    """the text cut at a random token boundary and ended inside a literal / comment / stray token whose last character is not ASCII"""
+    toks = tokens(text)
+    k = rng.randrange(len(toks) + 1) if toks else 0
+    return "".join(toks[:k]) + EOF_TAILS[rng.randrange(len(EOF_TAILS))]
+
+
+def char_prefixes(text, rng, limit):
+    """prefixes cut at arbitrary character positions (inside strings, comments, numbers, identifiers)"""
+    n = len(text)
+    if n < 2:
+        return []
+    return [text[:rng.randrange(1, n)] for _ in range(limit)]
